@@ -62,6 +62,7 @@ func sFH(inum uint64) nt.Nfs_fh3 {
 }
 
 type sOp struct {
+	FHLen int    // 0 = a normal 16-byte handle; otherwise the handle is cut to FHLen-1 bytes
 	Kind  string // read write setattr getattr commit lookup other
 	Inum  uint64
 	Off   uint64
@@ -76,7 +77,7 @@ type sOp struct {
 func (o sOp) String() string {
 	switch o.Kind {
 	case "read":
-		return fmt.Sprintf("READ ino=%d off=%d cnt=%d", o.Inum, o.Off, o.Cnt)
+		return fmt.Sprintf("READ ino=%d off=%d cnt=%d fhcut=%d", o.Inum, o.Off, o.Cnt, o.FHLen)
 	case "write":
 		return fmt.Sprintf("WRITE ino=%d off=%d cnt=%d len=%d tag=%x", o.Inum, o.Off, o.Cnt, len(o.Data), tagOf(o.Data))
 	case "setattr":
@@ -102,6 +103,9 @@ func sValid(inum uint64) bool { return inum >= 2 && inum < 32 }
 // sApply is the specification: what an operation returns and how it changes the state.
 func sApply(m sModel, o sOp) (sRes, bool) {
 	f := m[o.Inum]
+	if o.FHLen > 0 && o.FHLen <= 8 && o.Kind != "lookup" && o.Kind != "other" {
+		return sRes{}, false // not a handle of any file (nor of the root)
+	}
 	switch o.Kind {
 	case "getattr":
 		if o.Inum == 1 {
@@ -165,6 +169,9 @@ func sApply(m sModel, o sOp) (sRes, bool) {
 // sCall performs the operation on the server.
 func sCall(n *simple.Nfs, o sOp) sRes {
 	fh := sFH(o.Inum)
+	if o.FHLen > 0 {
+		fh.Data = fh.Data[:o.FHLen-1] // a handle that is too short to hold an inode number
+	}
 	switch o.Kind {
 	case "getattr":
 		r := n.NFSPROC3_GETATTR(nt.GETATTR3args{Object: fh})
@@ -265,6 +272,11 @@ func genSOp(t *rapid.T, m sModel, tag *uint32, hot bool) sOp {
 	if hot || rapid.IntRange(0, 9).Draw(t, "valid") < 7 {
 		inum = uint64(pick(t, []int{2, 2, 3, 4, 31}, "vinum"))
 	}
+	if !hot && rapid.IntRange(0, 19).Draw(t, "shortfh") == 0 {
+		o := genSOp(t, m, tag, true)
+		o.FHLen = 1 + rapid.IntRange(0, 7).Draw(t, "fhlen")
+		return o
+	}
 	var size uint64
 	if f := m[inum]; f != nil {
 		size = f.Size
@@ -331,6 +343,9 @@ func TestC17Seq(t *testing.T) {
 			var m2 memProbe
 			m2.start()
 			out := Guard(20*time.Second, func() { got = sCall(n, o) })
+			if out.Slow {
+				t.Skip("harness too slow")
+			}
 			if out.Bad() {
 				failf(t, "C17", log, "%v: %v", o, out)
 			}
